@@ -38,7 +38,8 @@ Strategies (all JSON round-trippable, forward/backward maps implemented)
                                      through the library's VerificationStrategy defaults (specification found with
                                      pack(); cached); pack() expands the class
     FiniteVerified                   verifies finite non-atom classes by direct enumeration; no pack
-    CoreFactory                      StrategyFactory yielding strategies
+    CoreFactory                      StrategyFactory yielding strategies (RemoveFrontOfPrefix if it applies, else
+                                     ExpansionStrategy)
     LookAheadRuleFactory             StrategyFactory yielding ready rules, including rules whose parent is a *child*
                                      of the expanded class
     LookBackRuleFactory              yields the expansion rule of the class with the last prefix letter removed
@@ -976,11 +977,15 @@ class _Factory(StrategyFactory[Av]):
 
 
 class CoreFactory(_Factory):
-    """Yields strategies."""
+    """Yields strategies: the prefix factorisation when it applies, otherwise the expansion (so that the universe
+    stays finite even when the factory is the only expansion strategy)."""
 
     def __call__(self, comb_class: Av):
-        yield RemoveFrontOfPrefix()
-        yield ExpansionStrategy()
+        front = RemoveFrontOfPrefix()
+        if front.decomposition_function(comb_class) is not None:
+            yield front
+        else:
+            yield ExpansionStrategy()
 
 
 class LookAheadRuleFactory(_Factory):
@@ -1086,9 +1091,9 @@ PACKS: Dict[str, Callable[[], StrategyPack]] = {
     ),
     "longverif1": lambda: _pack(
         "longverif1",
+        [RemoveFrontOfPrefix()],
         [],
-        [],
-        [[ExpansionStrategy()], [RemoveFrontOfPrefix()]],
+        [[ExpansionStrategy()], [LookBackRuleFactory()]],
         [StatAtomStrategy(), LongPrefixVerified(k=1)],
     ),
     "finite": lambda: _pack(
